@@ -9,7 +9,9 @@ import json
 import os
 import re
 
+import c19collab
 import c19life
+import c19store
 import common
 from common import REPO, cxx_build, drv, gen_write, log, sh
 
@@ -29,8 +31,14 @@ def gen(ck):
     c = json.loads(out)
     ck.extra["generated_constants"] = c
     life_defs, life = c19life.gen(ck)
-    gen_write("C19", "".join("def %s : Nat := %d\n" % (k, v) for k, v in sorted(c.items())) + life_defs)
+    # the largest number of references the low bits of the state word can count = simultaneous helpers between their
+    # `CAS +1` and their `fetch_sub(1)` (collaborative_once_references_mask)
+    c["maxHelpers"] = c["refMask"]
+    collab_defs, skel = c19collab.gen(ck, build_once(), once_script_run)
+    store_defs = c19store.gen(ck)
+    gen_write("C19", "".join("def %s : Nat := %d\n" % (k, v) for k, v in sorted(c.items())) + collab_defs + store_defs + life_defs)
     c["life"] = life
+    c["skel"] = skel
     return c
 
 
@@ -50,11 +58,12 @@ def parse_runs(out):
         if not w:
             continue
         if w[0] == "run":
-            cur = {"ev": [], "res": {}, "mon": "", "sched": [], "info": {}}
+            cur = {"ev": [], "ord": [], "res": {}, "mon": "", "sched": [], "info": {}}
         elif cur is None:
             continue
         elif w[0] == "e":
-            cur["ev"].append((int(w[1]), " ".join(w[2:])))
+            cur["ev"].append((int(w[1]), " ".join(w[2:7])))
+            cur["ord"].append(w[7] if len(w) > 7 else "")
         elif w[0] == "res":
             cur["res"][int(w[1])] = w[2:]
         elif w[0] == "info":
@@ -151,6 +160,19 @@ def once_many_callers(ck, exe, U, bad_corr, bad_mon):
     else:
         info["monitor"] = "harness rc=%d %s" % (rc, err[-200:])
     ck.extra["beyond_bound_observation"] = info
+    # (c) the bound is exact: U+1 callers suffice (caller 0's first invocation throws, its second call takes the last reference)
+    T1 = U + 1
+    script = ",".join(["0:C", "1:S3", "0:Z", "2:C"] + ["%d:C" % i for i in range(3, T1)] + ["0:C", "1:C"])
+    sc, rc, runs, err = once_script_run(exe, [2] + [1] * (T1 - 1), [0], script)
+    info2 = {"callers": T1, "what": "theorem once_bound_is_exact on the real header: maxHelpers + 2 = %d callers; caller 1 holds `expected` = runner of caller 0 (whose first "
+             "invocation throws), caller 2 wins, callers 3..%d and the second call of caller 0 pin it (low bits = mask), caller 1's CAS carries" % (T1, T1 - 1)}
+    if runs:
+        info2["monitor"] = runs[0]["mon"]
+        info2["overflow_event"] = next((e for (_, e) in runs[0]["ev"] if e.startswith("cas state") and "?" in e), None)
+        info2["model_agrees"] = once_replay_on_model(sc, runs[0], U)
+    else:
+        info2["monitor"] = "harness rc=%d %s" % (rc, err[-200:])
+    ck.extra["exact_bound_observation"] = info2
     if runs and runs[0]["mon"] != "ok":
         log("NOTE (outside the 2-8 thread bound of C19, not an obligation): with %d concurrent callers the helper count overflows into the "
             "runner pointer on the unchanged header: %s" % (T, info.get("overflow_event")))
@@ -422,8 +444,20 @@ def run_real(ck):
         lines.append("once %s %d %d %d %s" % (rng.choice("tpn"), T, calls, 60 if quick else 400, " ".join(map(str, throws))))
     for _ in range(4 if quick else 30):
         lines.append("ets %s %d %d %d" % (rng.choice("ec"), rng.choice([1, 2, 3, 5, 8, 9]), rng.choice([1, 2, 3]), 60 if quick else 400))
+    lines.append("etsthrow %d %d" % (rng.choice([2, 3, 4, 6]), 10 if quick else 100))
     rc, out, err = sh([exe], input="\n".join(lines) + "\n", timeout=1500)
     outs = out.split("\n")[:-1]
+    # the last line demonstrates the known finding with real threads (OS schedules)
+    if rc == 0 and len(outs) == len(lines):
+        o = outs[-1]
+        shown = o.startswith("VIOLATION ets-throwing-initialiser")
+        ck.oblige("monitor:real threads, throwing initialiser: size() and iteration account only for constructed elements", "correspondence",
+                  o.startswith("ok"), o, cex_keys=[c19store.KEY_DEAD] if shown else None)
+        if shown:
+            ck.counterexample(c19store.KEY_DEAD, "real library, real threads: " + o, {"engine": "E-REAL", "family": "real", "line": lines[-1]})
+        elif not o.startswith("ok"):
+            ck.counterexample("real:ets-throw-other", "real runtime: %s on `%s`" % (o, lines[-1]), {"engine": "E-REAL", "family": "real", "line": lines[-1]})
+        lines, outs = lines[:-1], outs[:-1]
     bad = None
     if rc != 0 or len(outs) != len(lines):
         i = min(len(outs), len(lines) - 1)
@@ -462,7 +496,11 @@ def run(ck):
                "on the real runtime (std::threads / parallel_for bodies / nested parallelism inside the function); container lifecycle: 16 hand-written + 40 (thorough 400) "
                "seeded scenarios over ets_no_key / ets_key_per_instance / combinable with 2-9 threads and 4-12 phases (concurrent local() phases, clear by a user or "
                "a non-user thread, repeated clear, 1100 generations, destroy + re-create at the same address, move round trip, copy), 5 (25) schedules each + 3 OS-scheduled "
-               "runs on the real library; distinct = distinct (family, #threads, "
+               "runs on the real library; collaborative part: 70 (thorough 700) whole-instrumented-runtime scenarios (2-4 callers x 1-2 calls, P 1-3, 2-9 inner tasks, "
+               "explicit arena with reserved slots / implicit arenas, nested second flag, callers as outer parallel_for tasks, throwing invocation prefixes) each under one "
+               "seeded schedule, validated event by event on the Lean model Collab, runner bytes poisoned after the winner's call; ETS storage: 6 hand-written + 40 (400) "
+               "seeded scenarios x 5 (30) schedules with throwing initialisers (functor / exemplar / default ctor) and a failing allocator, replayed on the model Store; "
+               "distinct = distinct (family, #threads, "
                "#throws or #arrays, access kinds seen, outcomes) classes")
     ck.assumptions += [
         "proved on the model (N threads <= collaborative_once_max_references, all schedules, all throw oracles; sequentially consistent interleavings)",
@@ -470,7 +508,17 @@ def run(ck):
         "what helpers do inside the runner's arena is abstracted to 'wait until the runner's wait_context is released': the r1:: entry points "
         "reached by collaborative_call_once.h (task_arena attach/execute, isolate_within_arena, execute_and_wait, wait, task_group_context) are "
         "harness-local stubs under E-SHIM (a helper blocked inside uninstrumented libtbb would hold the baton forever)",
-        "weak CAS never fails spuriously under the shim"]
+        "weak CAS never fails spuriously under the shim",
+        "collaborative part (Model/C19Collab.lean): proved for every schedule of accesses and task actions; what the dispatcher does inside r1::wait / execute_and_wait is "
+        "abstracted to begin / take / fin of inner tasks (who may take: winner inside the function, helpers inside assist() of the current runner, workers); arena slot "
+        "acquisition, the delegated path of task_arena::execute when no slot is free, task stealing order and the isolation filter of the task pools are C01/C16; the "
+        "happens-before ghosts cover the completion (state word) and the destructor's m_ref_count synchronisation with the REGENERATED orders, not the visibility of the "
+        "function's writes to the inner tasks (spawn / steal edges); nested same-flag use is modelled only as the blocked-frame relation of the non-isolated skeleton",
+        "ETS storage (Model/C19Store.lean): operation-level model (one step per local() call); the interleaving of the phases of concurrent create_local calls is covered by "
+        "the E-SHIM differential only, justified by C11 (disjoint hand-out, stable addresses: ets_element_address_stable); flattened2d's segmented iterator is compared "
+        "with an executable model (no theorem); allocation-failure scenarios are gated so that the failing first-block allocation does not race with other growers "
+        "(that race is C11's finding fault:alloc-throw:first-block:*), and a container whose my_locals is broken is leaked, not cleared (clear() segfaults in "
+        "concurrent_vector::destroy_elements: observation, C11's domain)"]
     ck.assumptions += [
         "EtsTable model: create_local() (my_locals.grow_by + construction) is merged with the following ++my_count; (i+1)&mask is modelled as (i+1) % 2^lg; "
         "std::hash of the key is a parameter (every assignment of 64-bit hashes is covered by the theorems)",
@@ -483,7 +531,7 @@ def run(ck):
         "has one element per thread), not by the model",
         "OnceFlag theorems need #callers <= collaborative_once_max_references (=128): beyond that the helper count CAN overflow into the runner pointer "
         "(stale `expected`; shown on the model by once_refcount_overflow_beyond_bound and on the real header with 130 callers, see beyond_bound_observation)"]
-    ck.trusted += ["harness/shim (atomic shim + baton scheduler)", "harness/c19/*.cpp monitors and r1 stubs", "checks/c19life.py (statement -> primitive-action reader of the lifecycle functions; scenario generator; op replay)", "trace replay in checks/c19.py (sampled correspondence)"]
+    ck.trusted += ["checks/c19collab.py (skeleton / order extraction from scripted traces and header text; whole-runtime trace validation)", "checks/c19store.py (call linearisation by grow_by hand-out, fault oracle from observed outcomes)", "harness/shim/verif_hb.h (happens-before recomputation over the log)", "harness/shim (atomic shim + baton scheduler)", "harness/c19/*.cpp monitors and r1 stubs", "checks/c19life.py (statement -> primitive-action reader of the lifecycle functions; scenario generator; op replay)", "trace replay in checks/c19.py (sampled correspondence)"]
     c = gen(ck)
     ck.lean_stage()
     bc, bm = run_once_family(ck, c["maxRefs"])
@@ -495,6 +543,9 @@ def run(ck):
                   "one initialiser call and one stable element per thread, no sharing, exists flag, iteration/combine_each visit each element once, count, no deadlock (random + bounded-preemption DFS)",
                   bc, bm, lambda sc, r: {"engine": "E-SHIM", "family": "ets", "scenario": sc, "schedule": r["sched"], "monitor": r["mon"],
                                          "hashes": r.get("info", {}).get("hashes"), "rand_args": r.get("rand_args"), "trace": r.get("ev", [])[:300]})
+    cexe, cbc, cbm, ccov = c19collab.run_family(ck, c["maxRefs"])
+    c19collab.report(ck, cexe, cbc, cbm, ccov)
+    c19store.run_family(ck)
     run_real(ck)
     life_exe, lbc, lbm, lrb = c19life.run_family(ck, c["life"])
     c19life.report(ck, life_exe, c["life"], lbc, lbm, lrb)
@@ -516,6 +567,10 @@ def replay(ck, obj):
     r = obj["replay"]
     if r["family"] in ("life", "life-real"):
         return c19life.replay(r)
+    if r["family"] == "collab":
+        return c19collab.replay(r)
+    if r["family"] == "store":
+        return c19store.replay(r)
     if r["family"] == "once":
         exe = build_once()
         rc, out, err = sh([exe, "replay", ",".join(r["schedule"])], input=once_text(r["scenario"]), timeout=300)
